@@ -50,18 +50,6 @@ Definition tables_wellformed : bool :=
 Lemma tables_wellformed_ok : tables_wellformed = true.
 Proof. vm_compute. reflexivity. Qed.
 
-(** the only class default that the device decoder can silently substitute for
-    an absent ["dmm_objects"] key *)
-Definition dmm_default_is_empty (t : table) : bool :=
-  match default_of t "dmm_objects" with
-  | Some (PList []) => true
-  | _ => false
-  end.
-Lemma dmm_default_device : dmm_default_is_empty tbl_Device = true.
-Proof. vm_compute. reflexivity. Qed.
-Lemma dmm_default_virtual_nonempty : dmm_default_is_empty tbl_VirtualDevice = false.
-Proof. vm_compute. reflexivity. Qed.
-
 (** ** Schema key sets: what the encoders always emit covers [required];
     everything they can emit is among [properties]. *)
 Definition always_emitted (t : table) (opt : list string) : list string :=
@@ -221,29 +209,123 @@ Proof.
   intros. unfold read_attr, new_local. simpl. rewrite nth_error_app_old; auto.
 Qed.
 
-Theorem staterepr_fixed_no_sharing : forall h eig amps h' i a,
-  staterepr_new_fixed h eig amps = Some h' ->
+Theorem staterepr_no_sharing : forall h eig amps h' i a,
+  staterepr_new h eig amps = Some h' ->
   (i < List.length (h_objs h))%nat ->
   read_attr h' i a = read_attr h i a.
 Proof.
-  unfold staterepr_new_fixed. intros. destruct (first_key_len amps); [|discriminate].
+  unfold staterepr_new. intros. destruct (first_key_len amps); [|discriminate].
   inversion H; subst. apply new_local_frame; auto.
 Qed.
 
-(** the code as written: the second construction changes the first instance *)
-Definition sr_two : option heap :=
-  match staterepr_new empty_heap (PList [PStr "r"; PStr "g"]) (PDict [("rg", PFlt one)]) with
-  | Some h1 => staterepr_new h1 (PList [PStr "r"; PStr "g"]) (PDict [("rgr", PFlt one)])
-  | None => None
-  end.
+(** after any sequence of constructions every instance reads its own number
+    of qudits *)
+Definition own_nq (ea : pv * pv) : option pv :=
+  match first_key_len (snd ea) with Some n => Some (PInt n) | None => None end.
 
-Theorem staterepr_shared_state_refuted :
+Lemma build_states_objs : forall l h h',
+  build_states h l = Some h' ->
+  h_class h' = h_class h
+  /\ exists ds, h_objs h' = h_objs h ++ ds
+       /\ map (get "_n_qudits") ds = map own_nq l.
+Proof.
+  induction l as [|[e a] r IH]; simpl; intros h h' H.
+  - inversion H; subst. split; auto. exists []. rewrite app_nil_r. auto.
+  - unfold staterepr_new in H. destruct (first_key_len a) eqn:F; [|discriminate].
+    apply IH in H as [Hc [ds [Ho Hm]]]. simpl in *. split; auto.
+    exists (staterepr_inst e a z :: ds). split.
+    + rewrite Ho. rewrite <- app_assoc. auto.
+    + simpl. unfold own_nq at 1. simpl. rewrite F. f_equal. auto.
+Qed.
+
+Lemma map_nth_seq : forall {A B} (g : option A -> B) (l : list A),
+  map (fun i => g (nth_error l i)) (seq 0 (List.length l)) = map (fun x => g (Some x)) l.
+Proof.
+  induction l; simpl; auto. f_equal.
+  rewrite <- seq_shift, map_map. simpl. auto.
+Qed.
+
+Theorem staterepr_reads_own : forall l h,
+  build_states empty_heap l = Some h ->
+  nq_readings h = map own_nq l.
+Proof.
+  intros l h H. apply build_states_objs in H as [Hc [ds [Ho Hm]]].
+  simpl in Ho. unfold nq_readings, read_attr. rewrite Ho.
+  rewrite (map_nth_seq (fun o => match o with
+                                 | Some d => match get "_n_qudits" d with
+                                             | Some v => Some v
+                                             | None => get "_n_qudits" (h_class h)
+                                             end
+                                 | None => None
+                                 end) ds).
+  rewrite <- Hm. rewrite Hc. simpl.
+  apply map_ext. intros d. destruct (get "_n_qudits" d); auto.
+Qed.
+
+(** why it matters: with the attribute on the class (the code before commit
+    b3b580b8) the second construction changed what the first instance read *)
+Lemma staterepr_on_class_shares :
   exists h1 h2 eig amps,
-    staterepr_new h1 eig amps = Some h2
+    staterepr_new_on_class h1 eig amps = Some h2
     /\ read_attr h1 0 "_n_qudits" = Some (PInt 2)
     /\ read_attr h2 0 "_n_qudits" = Some (PInt 3).
 Proof.
   eexists (mkHeap [("_n_qudits", PInt 2)] [[("_eigenstates", PList [PStr "r"; PStr "g"]); ("_amplitudes", PDict [("rg", PFlt one)])]]).
   eexists. exists (PList [PStr "r"; PStr "g"]), (PDict [("rgr", PFlt one)]).
   split; [reflexivity|]. split; reflexivity.
+Qed.
+
+(** ** The device decoder takes ["dmm_objects"] from the JSON alone: an absent
+    key means no DMM, whatever the class default is (commit 877338bd) *)
+Lemma construct_fields_get : forall t params a,
+  construct_fields t params = Some a ->
+  NoDup (names t) ->
+  forall f, In f t -> get (f_name f) a = fval f params.
+Proof.
+  induction t as [|g r IH]; simpl; intros params a H ND f Hi; [tauto|].
+  inversion ND; subst.
+  fold (fval g params) in H.
+  destruct (fval g params) eqn:V; [|discriminate].
+  destruct (construct_fields r params) eqn:C; [|discriminate].
+  inversion H; subst. simpl.
+  destruct Hi as [E|Hi].
+  - subst. rewrite seqb_refl. auto.
+  - destruct (String.eqb_spec (f_name f) (f_name g)).
+    + exfalso. apply H2. rewrite <- e. apply in_map; auto.
+    + eapply IH; eauto.
+Qed.
+
+Theorem dec_dev_absent_dmm_is_empty : forall obj d,
+  get "dmm_objects" obj = None ->
+  dec_dev (PDict obj) = Some d ->
+  attr "dmm_objects" d = PList [].
+Proof.
+  intros obj d Hn H. unfold dec_dev in H. rewrite Hn in H.
+  destruct (get "is_virtual" obj); [|discriminate].
+  destruct (get "channels" obj) as [[]|]; try discriminate.
+  set (cls := if truthy p then "VirtualDevice" else "Device") in *.
+  destruct (dev_tbl cls) as [t|] eqn:T; [|discriminate].
+  destruct (mapM chan_id l) as [ids|]; [|discriminate].
+  destruct (mapM dec_chan l) as [objs|]; [|discriminate].
+  simpl mapM in H. cbv iota beta in H.
+  destruct (field_loop t t with_repr obj dec_dev_val) as [ps|]; [|discriminate].
+  unfold construct in H.
+  match type of H with (if ?c then _ else _) = _ => destruct c; [|discriminate] end.
+  destruct (construct_fields t _) as [a|] eqn:C; [|discriminate].
+  inversion H; subst d. unfold attr, attrs_of.
+  assert (Ht : t = tbl_Device \/ t = tbl_VirtualDevice).
+  { unfold dev_tbl in T. destruct (String.eqb cls "Device"); [left; congruence|].
+    destruct (String.eqb cls "VirtualDevice"); [right; congruence | discriminate]. }
+  assert (G : exists f, In f t /\ f_name f = "dmm_objects" /\ f_init f = true /\ NoDup (names t)).
+  { destruct Ht; subst t.
+    - exists (mkF "dmm_objects" true (default_of tbl_Device "dmm_objects")).
+      split; [vm_compute; tauto|]. split; [reflexivity|]. split; [reflexivity|].
+      apply nodup_s_NoDup. vm_compute. reflexivity.
+    - exists (mkF "dmm_objects" true (default_of tbl_VirtualDevice "dmm_objects")).
+      split; [vm_compute; tauto|]. split; [reflexivity|]. split; [reflexivity|].
+      apply nodup_s_NoDup. vm_compute. reflexivity. }
+  destruct G as [f [Hi [Hname [Hinit ND]]]].
+  pose proof (construct_fields_get _ _ _ C ND f Hi) as Gf.
+  rewrite Hname in Gf. rewrite Gf. unfold fval. rewrite Hinit, Hname.
+  rewrite get_app. simpl. reflexivity.
 Qed.
